@@ -388,7 +388,8 @@ pub fn run_c13(_batch: &str, tape: &mut Tape, rep: &mut Report) {
     let level_engine = tape.chance(1, 2);
     let kind = if tape.chance(1, 2) {
         let size = tape.range(1, 5) as i64;
-        Kind::SlidingTime(size, tape.range(1, size as u64) as i64)
+        // every (size, slide) pair of the range, slide longer than the window included
+        Kind::SlidingTime(size, tape.range(1, 5) as i64)
     } else {
         let size = tape.range(1, 5) as usize;
         Kind::SlidingCount(size, tape.range(1, size as u64) as usize)
